@@ -26,6 +26,17 @@ def hint_tree(node):
     return {"k": "name", "id": ast.dump(node)[:40]}
 
 
+def bare_leaves(node):
+    """Type names used without qualification in an annotation (generic bases such as Array[...] excluded)."""
+    if isinstance(node, ast.BinOp) and isinstance(node.op, ast.BitOr):
+        return bare_leaves(node.left)
+    if isinstance(node, ast.Subscript):
+        return bare_leaves(node.slice)
+    if isinstance(node, ast.Name):
+        return [blank(node.id)]
+    return []
+
+
 def blank(name):
     return "" if name.startswith("__anonymous_") else name
 
@@ -34,9 +45,9 @@ def project_stub(text):
     try:
         tree = ast.parse(text)
     except SyntaxError as e:
-        return {"valid": False, "consts": [], "classes": [], "aliases": [], "other": [], "err": f"line {e.lineno}: {(e.text or '').strip()[:80]}"}
+        return {"valid": False, "consts": [], "classes": [], "aliases": [], "other": [], "scopes": [], "err": f"line {e.lineno}: {(e.text or '').strip()[:80]}"}
     top = [n for n in tree.body if isinstance(n, ast.ClassDef)]
-    out = {"valid": True, "consts": [], "classes": [], "aliases": [], "other": []}
+    out = {"valid": True, "consts": [], "classes": [], "aliases": [], "other": [], "scopes": []}
     if len(top) != 1:
         out["other"].append("not exactly one top-level class")
         return out
@@ -52,13 +63,18 @@ def project_stub(text):
                 out["other"].append(f"annotation {n.target.id}")
         elif isinstance(n, ast.ClassDef):
             base = hint_tree(n.bases[0])["id"] if n.bases else ""
-            fields, members = [], []
+            fields, members, bare, inline = [], [], [], []
             for b in n.body:
                 if isinstance(b, ast.AnnAssign) and isinstance(b.target, ast.Name):
                     fields.append([b.target.id, hint_tree(b.annotation)])
+                    bare += bare_leaves(b.annotation)
                 elif isinstance(b, ast.Assign) and len(b.targets) == 1 and isinstance(b.targets[0], ast.Name):
                     members.append(b.targets[0].id)
+                elif isinstance(b, ast.ClassDef):
+                    inline.append(blank(b.name))
             out["classes"].append({"name": n.name, "base": base, "fields": fields, "members": members})
+            # names a hint uses without the stub class prefix must be declared in the same class body (inline classes)
+            out["scopes"].append({"name": n.name, "bare": sorted(set(bare)), "inline": sorted(set(inline))})
         elif isinstance(n, ast.Expr) and isinstance(n.value, ast.Constant) and n.value.value is Ellipsis:
             pass
         else:
@@ -91,7 +107,7 @@ def stub_record(rid, rnd, special=None):
         rec["obs"] = project_stub(stub)
         rec["stub"] = stub[:3000]
     except Exception as e:  # noqa: BLE001
-        rec["obs"] = {"valid": False, "consts": [], "classes": [], "aliases": [], "other": [], "err": f"{type(e).__name__}: {e}"[:200]}
+        rec["obs"] = {"valid": False, "consts": [], "classes": [], "aliases": [], "other": [], "scopes": [], "err": f"{type(e).__name__}: {e}"[:200]}
     return rec
 
 
@@ -124,7 +140,7 @@ class StubCheck:
             rep.sample({"text": r["text"][:300], "valid": r["obs"]["valid"], "classes": [c["name"] for c in r["obs"]["classes"]]}, limit=3)
             if not v:
                 continue
-            if r["special"] and (v == ["invalid-python"] or set(v) <= {"classes", "consts", "extra-declarations", "aliases"}):
+            if r["special"] and (v == ["invalid-python"] or set(v) <= {"classes", "consts", "extra-declarations", "aliases", "unresolvable-hint"}):
                 rep.known_hit("F15", f"{r['special']}: {r['obs'].get('err', '')}")
                 continue
             rep.violation(f"stub of {r['text'][:400]!r}: clauses {v}; {r['obs'].get('err', '')} classes={str(r['obs']['classes'])[:500]} aliases={r['obs']['aliases']} other={r['obs']['other']}",
